@@ -804,7 +804,7 @@ const c13Rule = "generated grammars without ~ / (?= ) / (?! ) x sampled and muta
 	"at every k although the reference parser abandoned >=1 attempt; distinct by SHA-256 of (grammar, input)"
 
 // every negative value means unlimited lookahead
-var c13Ladder = []int{0, 1, 2, 3, 5, participle.MaxLookahead, -1, -2, math.MinInt}
+var c13Ladder = []int{0, 1, 2, 3, 5, participle.MaxLookahead, 1 << 32, 1 << 40, -1, -2, -(1 << 32), math.MinInt}
 
 type c13Parsers struct {
 	g  *gram.Grammar
